@@ -3,4 +3,6 @@
 # ./check.sh <ID> --replay <file>       re-run a stored counterexample
 cd "$(dirname "$0")"
 ./bootstrap.sh || { echo "bootstrap failed"; exit 2; }
+# the thorough tier gets four times the per-condition budgets (a timeout is INCONCLUSIVE, never success)
+if [ "$2" = "thorough" ] && [ -z "$VF_TIMEOUT_SCALE" ]; then export VF_TIMEOUT_SCALE=4; fi
 exec .venv/bin/python -m vf.run "$@"
